@@ -302,8 +302,9 @@ impl Probe for SimNum {
     const BINARY: &'static [&'static str] = &["+", "*", "/", "%", "min"];
     const SUBS: &'static [&'static str] = &["2*q", "sq(q)-r", "7", "q/r"];
     fn palette(r: &mut Rng) -> Self {
-        SimNum(match r.below(10) {
-            0 | 1 => 0,
+        SimNum(match r.below(14) {
+            0 => 0,
+            1 => 4,
             2 => 1,
             3 => -1,
             4 => 2,
@@ -515,7 +516,7 @@ where
         format!("{:?}", self.ex)
     }
     fn unchanged(&self) -> Result<(), String> {
-        let now = format!("{:?}", self.ex);
+        let now = crate::run::canonical(&format!("{:?}", self.ex));
         if now != self.snap {
             return Err(format!("debug rendering changed: before={} after={}", self.snap, now));
         }
@@ -579,7 +580,7 @@ where
         format!("{:?}", self.ex)
     }
     fn unchanged(&self) -> Result<(), String> {
-        let now = format!("{:?}", self.ex);
+        let now = crate::run::canonical(&format!("{:?}", self.ex));
         if now != self.snap {
             return Err(format!("debug rendering changed: before={} after={}", self.snap, now));
         }
@@ -607,7 +608,7 @@ where
             }
             .map_err(|e| e.msg().to_string())?;
             let pristine = ex.clone();
-            let snap = format!("{ex:?}");
+            let snap = crate::run::canonical(&format!("{ex:?}"));
             #[allow(clippy::eq_op)]
             let reflexive = pristine == pristine;
             Ok(Arc::new(FlatH::<T> { ex, pristine, snap, reflexive }))
@@ -616,7 +617,7 @@ where
             let ex = DeepEx::<'static, T, T::OF, T::LM>::parse(leak(text))
                 .map_err(|e| e.msg().to_string())?;
             let pristine = ex.clone();
-            let snap = format!("{ex:?}");
+            let snap = crate::run::canonical(&format!("{ex:?}"));
             #[allow(clippy::eq_op)]
             let reflexive = pristine == pristine;
             Ok(Arc::new(DeepH::<T> { ex, pristine, snap, reflexive }))
